@@ -292,8 +292,33 @@ Theorem smarts_sources_pinned :
                ("x"%string, "heteroatoms"%string); ("*"%string, "hybridization"%string)] /\
   validate_tests = [("Gt"%string, 14); ("Lt"%string, 0)] /\ hybridization_tests = [("Gt"%string, 4); ("Lt"%string, 1)] /\
   ring_sizes_tests = [("Lt"%string, 3); ("NotEq"%string, 0)] /\ charge_tests = [("Gt"%string, 4); ("Lt"%string, -4)] /\
-  st_replace_dict = TokenTables.replace_dict /\ st_not_dict = TokenTables.not_dict.
+  st_replace_dict = TokenTables.replace_dict /\ st_not_dict = TokenTables.not_dict /\
+  validate_guards = ["value is None"%string; "isinstance(value, int)"%string; "isinstance(value, (tuple, list))"%string] /\
+  hybridization_guards = validate_guards /\ ring_sizes_guards = validate_guards.
 Proof. repeat split; reflexivity. Qed.
+
+(* the query API setters: None = unconstrained; a bare int in range is the one-value constraint (0 included: "no neighbours",
+   "no hydrogens", "no heteroatoms" are constraints, not the empty tuple); an accepted list is stored sorted with the same members *)
+Theorem validate_api_spec lo hi :
+  validate_api lo hi None = Ok [] /\
+  (forall v, lo <= v <= hi -> validate_api lo hi (Some (IInt v)) = Ok [v]) /\
+  (forall v, v < lo \/ hi < v -> validate_api lo hi (Some (IInt v)) = Err ValueError) /\
+  (forall l r, validate_api lo hi (Some (IList l)) = Ok r ->
+     (forall x, In x r <-> In x l) /\ (forall x, In x l -> lo <= x <= hi) /\ nodup_z l = true).
+Proof.
+  split; [reflexivity|]. split; [|split].
+  - intros v H. cbn. destruct (v <? lo) eqn:E1; [apply Z.ltb_lt in E1; lia|]. destruct (hi <? v) eqn:E2; [apply Z.ltb_lt in E2; lia|]. reflexivity.
+  - intros v H. cbn. destruct (v <? lo) eqn:E1; [reflexivity|]. destruct (hi <? v) eqn:E2; [reflexivity|].
+    apply Z.ltb_ge in E1, E2. lia.
+  - intros l r. cbn. unfold validate_list.
+    destruct (existsb (fun x => (x <? lo) || (hi <? x)) l) eqn:E1; [discriminate|].
+    destruct (negb (nodup_z l)) eqn:E2; [discriminate|]. intros H; inversion H; subst. split; [|split].
+    + intros x. apply sort_z_In.
+    + intros x Hx. destruct (Z_le_dec lo x), (Z_le_dec x hi); try lia;
+        (assert (existsb (fun x => (x <? lo) || (hi <? x)) l = true); [apply existsb_exists; exists x; split; [exact Hx|]|congruence]);
+        apply orb_true_iff; [right; apply Z.ltb_lt; lia | left; apply Z.ltb_lt; lia | left; apply Z.ltb_lt; lia].
+    + apply negb_false_iff in E2. exact E2.
+Qed.
 
 (* every text the charge scan [+-][1-4+-]? can return: the model's table is the source's charge_dict *)
 Definition charge_groups : list str :=
